@@ -843,3 +843,359 @@ func TestVF_C38(t *testing.T) {
 		return msg
 	})
 }
+
+// ---------------------------------------------------------------------------------------------------------------
+// Component level: a real channelMedium driven directly, its node replaced by a mock whose publication handler can be
+// parked (a stalled queue writer), so that the queue really goes over queueMaxSize.
+//
+// Model (from channel_medium.go): with the queue a publication is dropped iff the queue's byte size is above the limit at
+// the moment of the call (observed in-package at a quiescent point), otherwise it is queued; the insufficient-state
+// sentinel is ALWAYS queued ("marks all channel subscribers with insufficient state"); the writer hands items over in
+// queue order, with a broadcast delay it may skip publications (latest wins) but never a sentinel; without the queue
+// everything is handed over synchronously. CheckPosition: a real check happens iff now-positionCheckTime >= checkDelay
+// (positionCheckTime = creation, every broadcastPublication, every real check, every sentinel); it returns false and
+// issues the sentinel iff the client position differs from the stream top. Nothing is handed over after close.
+
+type vfC38MOp struct {
+	Kind   int // 0 publish, 1 check position, 2 arm handler gate, 3 release handler, 4 advance, 5 stream top moves on (loss), 6 close
+	Size   int
+	Delta  bool
+	Behind int // check: client offset = top - Behind
+	Epoch  bool // check: client epoch differs
+	DelayS int // check: checkDelay seconds
+	Ms     int
+}
+
+type vfC38MCase struct {
+	Opts ChannelMediumOptions
+	Ops  []vfC38MOp
+}
+
+func (o vfC38MOp) String() string {
+	switch o.Kind {
+	case 0:
+		return fmt.Sprintf("pub(%dB delta=%v)", o.Size, o.Delta)
+	case 1:
+		return fmt.Sprintf("check(behind=%d otherEpoch=%v delay=%ds)", o.Behind, o.Epoch, o.DelayS)
+	case 2:
+		return "armGate"
+	case 3:
+		return "release"
+	case 4:
+		return fmt.Sprintf("adv(%dms)", o.Ms)
+	case 5:
+		return "topMovesOn"
+	}
+	return "close"
+}
+
+func (c vfC38MCase) String() string {
+	st := make([]string, len(c.Ops))
+	for i, o := range c.Ops {
+		st[i] = o.String()
+	}
+	m := c.Opts
+	return fmt.Sprintf("component medium{keepLatest=%v sharedSync=%v queue=%v queueMax=%d delay=%s} ops=[%s]", m.KeepLatestPublication,
+		m.SharedPositionSync, m.enableQueue, m.queueMaxSize, m.broadcastDelay, strings.Join(st, " "))
+}
+
+func vfC38MGen(rt *rapid.T) vfC38MCase {
+	c := vfC38MCase{}
+	c.Opts.KeepLatestPublication = rapid.Bool().Draw(rt, "keepLatest")
+	c.Opts.SharedPositionSync = rapid.Bool().Draw(rt, "sharedSync")
+	c.Opts.enableQueue = rapid.IntRange(0, 3).Draw(rt, "queue") > 0
+	if c.Opts.enableQueue {
+		c.Opts.queueMaxSize = rapid.SampledFrom([]int{0, 1, 10, 10, 40}).Draw(rt, "queueMax")
+		c.Opts.broadcastDelay = rapid.SampledFrom([]time.Duration{0, 0, 0, 200 * time.Millisecond, time.Second}).Draw(rt, "delay")
+	}
+	n := rapid.IntRange(3, 24).Draw(rt, "nops")
+	for i := 0; i < n; i++ {
+		k := rapid.SampledFrom([]int{0, 0, 0, 0, 0, 1, 1, 1, 2, 2, 3, 4, 4, 5, 5, 6}).Draw(rt, "kind")
+		o := vfC38MOp{Kind: k}
+		switch k {
+		case 0:
+			o.Size = rapid.IntRange(1, 30).Draw(rt, "size")
+			o.Delta = rapid.Bool().Draw(rt, "delta")
+		case 1:
+			o.Behind = rapid.SampledFrom([]int{0, 0, 1, 1, 2}).Draw(rt, "behind")
+			o.Epoch = rapid.IntRange(0, 5).Draw(rt, "epoch") == 0
+			o.DelayS = rapid.SampledFrom([]int{0, 0, 0, 1, 40}).Draw(rt, "checkDelay")
+		case 4:
+			o.Ms = rapid.SampledFrom([]int{50, 250, 1100, 45000}).Draw(rt, "ms")
+		case 6:
+			if i < n-3 {
+				o.Kind = 0
+				o.Size = 8
+			}
+		}
+		c.Ops = append(c.Ops, o)
+	}
+	return c
+}
+
+type vfC38MHand struct {
+	ID         int // index into the model's item list the handler identified (publication by pointer), -1 sentinel
+	Sentinel   bool
+	Off        uint64
+	SPOff      uint64
+	LocalPrev  *Publication
+	AfterClose bool
+}
+
+type vfC38MNode struct {
+	gates  *vfGates
+	mu     sync.Mutex
+	top    StreamPosition
+	hands  []vfC38MHand
+	pubs   []*Publication
+	closed bool
+}
+
+func (n *vfC38MNode) handlePublication(ch string, sp StreamPosition, pub, prevPub, localPrevPub *Publication) error {
+	n.mu.Lock()
+	afterClose := n.closed
+	n.mu.Unlock()
+	n.gates.Pass("h")
+	n.mu.Lock()
+	n.hands = append(n.hands, vfC38MHand{Sentinel: pub.Offset == math.MaxUint64, Off: pub.Offset, SPOff: sp.Offset, LocalPrev: localPrevPub, AfterClose: afterClose})
+	n.pubs = append(n.pubs, pub)
+	n.mu.Unlock()
+	return nil
+}
+
+func (n *vfC38MNode) streamTop(ch string, historyMetaTTL time.Duration) (StreamPosition, error) {
+	n.mu.Lock()
+	defer n.mu.Unlock()
+	return n.top, nil
+}
+
+func (n *vfC38MNode) mapStreamTop(ch string) (StreamPosition, error) { return n.streamTop(ch, 0) }
+
+func vfC38MRun(t *testing.T, cs vfC38MCase, out *vfC38Out) string {
+	return vfBubble(t, func() string {
+		gates := vfNewGates()
+		node := &vfC38MNode{gates: gates, top: StreamPosition{Offset: 0, Epoch: "e1"}}
+		m, err := newChannelMedium("cm", node, cs.Opts)
+		if err != nil {
+			return "infra: " + err.Error()
+		}
+		closed := false
+		defer func() {
+			gates.ReleaseAll()
+			if !closed {
+				m.close()
+			}
+			vfSettle()
+		}()
+		type item struct {
+			sentinel bool
+			pub      *Publication
+		}
+		var queued []item // what the model says was accepted, in order
+		deltaOf := map[*Publication]bool{}
+		lastCheck := time.Now()
+		var off uint64
+		drops, detections, overLimitDetections := 0, 0, 0
+		pendingAtClose := false
+		maxSize := defaultChannelLayerQueueMaxSize
+		if cs.Opts.queueMaxSize > 0 {
+			maxSize = cs.Opts.queueMaxSize
+		}
+		for oi, o := range cs.Ops {
+			if closed {
+				break
+			}
+			switch o.Kind {
+			case 0:
+				off++
+				pub := &Publication{Offset: off, Data: []byte(strings.Repeat("d", o.Size))}
+				over := cs.Opts.enableQueue && m.messages.Size() > maxSize
+				node.mu.Lock()
+				node.top.Offset = off // the stream has it, whatever happens to the delivery
+				node.mu.Unlock()
+				m.broadcastPublication(pub, StreamPosition{Offset: off, Epoch: "e1"}, o.Delta, nil)
+				lastCheck = time.Now()
+				if over {
+					drops++
+				} else {
+					queued = append(queued, item{pub: pub})
+				}
+				deltaOf[pub] = o.Delta
+			case 1:
+				node.mu.Lock()
+				top := node.top
+				node.mu.Unlock()
+				pos := top
+				if uint64(o.Behind) <= pos.Offset {
+					pos.Offset -= uint64(o.Behind)
+				}
+				if o.Epoch {
+					pos.Epoch = "other"
+				}
+				delay := time.Duration(o.DelayS) * time.Second
+				need := time.Since(lastCheck) >= delay
+				over := cs.Opts.enableQueue && m.messages.Size() > maxSize
+				got := m.CheckPosition(time.Minute, pos, delay)
+				want := !need || pos == top
+				if got != want {
+					return fmt.Sprintf("op %d: CheckPosition(position %v, top %v, checkDelay %s, %s since the last check/broadcast) = %v, want %v", oi, pos, top, delay, time.Since(lastCheck), got, want)
+				}
+				if need {
+					lastCheck = time.Now()
+				}
+				if !got {
+					detections++
+					if over {
+						overLimitDetections++
+					}
+					queued = append(queued, item{sentinel: true})
+				}
+			case 2:
+				if cs.Opts.enableQueue { // without the queue the broadcast runs on the caller's goroutine
+					gates.Arm("h", 1)
+				}
+			case 3:
+				gates.Release("h")
+			case 4:
+				time.Sleep(time.Duration(o.Ms) * time.Millisecond)
+			case 5:
+				off++
+				node.mu.Lock()
+				node.top.Offset = off
+				node.mu.Unlock()
+			case 6:
+				node.mu.Lock()
+				pendingAtClose = len(node.hands) < len(queued)
+				node.closed = true
+				node.mu.Unlock()
+				m.close()
+				closed = true
+			}
+			vfSettle()
+		}
+		// flush
+		gates.ReleaseAll()
+		vfSettle()
+		for i := 0; i < len(queued)+2; i++ {
+			time.Sleep(cs.Opts.broadcastDelay + 10*time.Millisecond)
+			vfSettle()
+		}
+		node.mu.Lock()
+		hands := append([]vfC38MHand(nil), node.hands...)
+		handPubs := append([]*Publication(nil), node.pubs...)
+		node.mu.Unlock()
+
+		render := func() string {
+			q := make([]string, len(queued))
+			for i, it := range queued {
+				if it.sentinel {
+					q[i] = "S"
+				} else {
+					q[i] = fmt.Sprint(it.pub.Offset)
+				}
+			}
+			h := make([]string, len(hands))
+			for i, x := range hands {
+				if x.Sentinel {
+					h[i] = "S"
+				} else {
+					h[i] = fmt.Sprint(x.Off)
+				}
+			}
+			return fmt.Sprintf("accepted by the medium (model): [%s]; handed to the node: [%s]", strings.Join(q, " "), strings.Join(h, " "))
+		}
+		// order: the hand-over sequence is a subsequence of the accepted sequence
+		qi := 0
+		var latest *Publication
+		sentinelsHanded := 0
+		for hi, h := range hands {
+			if h.AfterClose {
+				return fmt.Sprintf("hand-over %d started after close; %s", hi, render())
+			}
+			found := false
+			for ; qi < len(queued); qi++ {
+				it := queued[qi]
+				if (h.Sentinel && it.sentinel) || (!h.Sentinel && !it.sentinel && it.pub == handPubs[hi]) {
+					found = true
+					qi++
+					break
+				}
+			}
+			if !found {
+				return fmt.Sprintf("hand-over %d (offset %d) is out of order, duplicated, or was never accepted (a publication that must have been dropped); %s", hi, h.Off, render())
+			}
+			if h.Sentinel {
+				sentinelsHanded++
+				if h.SPOff != math.MaxUint64 {
+					return "sentinel stream position offset is not MaxUint64"
+				}
+				if h.LocalPrev != nil {
+					return "sentinel carries a local previous publication"
+				}
+				continue
+			}
+			p := handPubs[hi]
+			wantPrev := (*Publication)(nil)
+			if cs.Opts.KeepLatestPublication && deltaOf[p] {
+				wantPrev = latest
+			}
+			if h.LocalPrev != wantPrev {
+				return fmt.Sprintf("hand-over %d (offset %d): local previous publication is %v, want %v (keepLatest=%v delta=%v); %s", hi, h.Off, h.LocalPrev, wantPrev, cs.Opts.KeepLatestPublication, deltaOf[p], render())
+			}
+			latest = p
+		}
+		if !pendingAtClose {
+			if sentinelsHanded != detections {
+				return fmt.Sprintf("%d position losses were detected (CheckPosition returned false) but %d insufficient-state notifications reached the node handler (%d detections happened while the queue was over its limit); %s", detections, sentinelsHanded, overLimitDetections, render())
+			}
+			if cs.Opts.broadcastDelay == 0 && len(hands) != len(queued) {
+				return fmt.Sprintf("without a broadcast delay every accepted publication must be handed over: %s", render())
+			}
+			if cs.Opts.broadcastDelay > 0 && len(queued) > 0 && len(hands) == 0 {
+				return "nothing was handed over although publications were accepted: " + render()
+			}
+		}
+		if drops > 0 {
+			out.label("component_queue_over_limit_drop")
+		}
+		if detections > 0 {
+			out.label("component_loss_detected")
+		}
+		if overLimitDetections > 0 {
+			out.label("component_loss_detected_while_queue_over_limit")
+		}
+		if closed {
+			out.label("component_closed")
+		}
+		if pendingAtClose {
+			out.label("component_closed_with_pending_items")
+		}
+		if len(hands) < len(queued) && cs.Opts.broadcastDelay > 0 {
+			out.label("component_delay_coalesced")
+		}
+		if drops > 0 || detections > 0 {
+			out.nontrivial = true
+		}
+		return ""
+	})
+}
+
+func TestVF_C38_Medium(t *testing.T) {
+	vfCheck(t, "C38", func(rt *rapid.T, c *vfCase) string {
+		cs := vfC38MGen(rt)
+		c.Describe(cs.String())
+		out := &vfC38Out{}
+		msg := vfC38MRun(t, cs, out)
+		seen := map[string]bool{}
+		for _, l := range out.labels {
+			if !seen[l] {
+				seen[l] = true
+				c.Label(l)
+			}
+		}
+		if out.nontrivial {
+			c.Nontrivial(cs.String())
+		}
+		return msg
+	})
+}
